@@ -188,8 +188,11 @@ def first_diff(a: np.ndarray, b: np.ndarray):
 def close(a: np.ndarray, b: np.ndarray, tol=1e-9) -> bool:
     if len(a) != len(b):
         return False
-    scale = max(1.0, float(np.max(np.abs(a))) if len(a) else 1.0)
-    return bool(np.all(np.abs(a - b) <= tol * scale))
+    nan = np.isnan(a) & np.isnan(b)      # NaN samples (a pulse may carry them) are copies too
+    fin = np.abs(np.where(np.isfinite(a), a, 0.0))
+    scale = max(1.0, float(np.max(fin)) if len(a) else 1.0)
+    with np.errstate(invalid="ignore"):
+        return bool(np.all(nan | (np.abs(a - b) <= tol * scale)))
 
 
 def real_nested(samples, qidx, all_local):
@@ -268,8 +271,18 @@ def extend_model(e: Expanded, mc: dict, sch, n_new: int):
     return out
 
 
+def phase_rule() -> str:
+    """Which accumulation rule the tree under test has for the phase of a nested-dict entry:
+    'sum' (`d[..][PHASE] += cs.phase`, Sampler.lean `entryPhaseSum`) or 'merge' (the repair
+    `_add_channel_samples`, Sampler.lean `phaseStep`/`entryPhase`)."""
+    import pulser.sampler.samples as S
+
+    return "merge" if hasattr(S, "_add_channel_samples") else "sum"
+
+
 def model_nested(info: dict, ext: list, T: int, in_xy: bool):
     """Run the model's accumulation statements on the (extended) model channel arrays."""
+    rule = phase_rule()
     def new():
         return (np.zeros(T), np.zeros(T), np.zeros(T))
 
@@ -288,9 +301,16 @@ def model_nested(info: dict, ext: list, T: int, in_xy: bool):
             tgt = out["L"].setdefault(b, {}).setdefault(q, new())
         sl = slice(lo, hi)
         src = ext[k]
+        if rule == "merge":
+            # Sampler.lean `mergePhase`: keep only the driving side's phase when exactly one side drives
+            prev_on, new_on = tgt[0][sl] != 0, src.amp[sl] != 0
+            only_prev = (prev_on & ~new_on).astype(float)
+            only_new = (new_on & ~prev_on).astype(float)
+            tgt[2][sl] = tgt[2][sl] * (1.0 - only_new) + src.phase[sl] * (1.0 - only_prev)
+        else:
+            tgt[2][sl] += src.phase[sl]
         tgt[0][sl] += src.amp[sl]
         tgt[1][sl] += src.det[sl] * float(Fraction(w))
-        tgt[2][sl] += src.phase[sl]
     return out
 
 
@@ -469,8 +489,14 @@ def monitor_seq(real: RealSeq, user_pulses: set, rng, stats) -> list[Fail]:
         raise
     except Exception as ex:  # noqa: BLE001
         empty_eom = any(sch.eom_blocks and sch.get_duration() == 0 for sch in seq._schedule.values())
+        dmm = getattr(seq, "_slm_mask_dmm", None)
+        half_slm = bool(seq._in_ising and dmm and dmm in seq._schedule
+                        and not getattr(seq._schedule[dmm], "_waiting_for_first_pulse", True)
+                        and len(seq._schedule[dmm].slots) < 2)
+        cause = "slm-dmm-pulse-missing-after-failed-add" if half_slm else (
+            "eom-on-empty-channel" if empty_eom else "other")
         return [Fail("monitor", "sample-raises", f"sample(seq) raises {type(ex).__name__}: {ex}",
-                     exc=type(ex).__name__, cause="eom-on-empty-channel" if empty_eom else "other")]
+                     exc=type(ex).__name__, cause=cause)]
     T = samples.max_duration
     in_xy = bool(seq._in_xy)
     chinfo = []
@@ -536,7 +562,8 @@ def monitor_seq(real: RealSeq, user_pulses: set, rng, stats) -> list[Fail]:
         XA, XD, XP = arr(x.amp), arr(x.det), arr(x.phase)
         still = bool(sch.eom_blocks) and sch.eom_blocks[-1].tf is None
         off = float(sch.eom_blocks[-1].detuning_off) if still else 0.0
-        okx = (len(XA) == len(XD) == len(XP) == n_new and np.array_equal(XA[:n], A) and np.array_equal(XD[:n], D)
+        okx = (len(XA) == len(XD) == len(XP) == n_new and np.array_equal(XA[:n], A, equal_nan=True)
+               and np.array_equal(XD[:n], D, equal_nan=True)
                and np.array_equal(XP[:n], PH) and np.all(XA[n:] == 0) and np.all(XD[n:] == off)
                and np.all(XP[n:] == (PH[-1] if n else 0.0)))
         if not okx:
@@ -607,8 +634,9 @@ def monitor_seq(real: RealSeq, user_pulses: set, rng, stats) -> list[Fail]:
                         rd = rd + arr(e["det"])
                 for qty, x, y in (("amp", ea, ra), ("det", ed, rd)):
                     if not close(x[:t_cmp], y[:t_cmp], 1e-9):
-                        bad = np.flatnonzero(np.abs(x[:t_cmp] - y[:t_cmp]) > 1e-9 * max(1.0, np.max(np.abs(x))))
-                        t = int(bad[0])
+                        xx, yy = np.nan_to_num(x[:t_cmp], nan=1e300), np.nan_to_num(y[:t_cmp], nan=1e300)
+                        bad = np.flatnonzero(~(np.abs(xx - yy) <= 1e-9 * max(1.0, float(np.max(np.abs(xx[xx < 1e299]), initial=0.0)))))
+                        t = int(bad[0]) if len(bad) else 0
                         masked = bool(in_xy and q in mask_t and t < mask_end)
                         fails.append(Fail("monitor", "per-atom-" + qty,
                                           f"all_local={al} {basis} atom {q}: {qty} at t={t} is {y[t]!r}, the pulses "
@@ -619,26 +647,34 @@ def monitor_seq(real: RealSeq, user_pulses: set, rng, stats) -> list[Fail]:
         for k, (name, sch, ch, n, A, D, PH, pulses, _) in enumerate(chinfo):
             glob = ch.addressing == "Global" and not al and not isinstance(ch, DMM)
 
-            def writers(entry_glob, q, t):
-                """Phases (at t) of the channels whose samples the real code adds into this entry at t."""
+            def writers(entry_glob, q, a, b):
+                """(name, phase array, amplitude array) over [a,b) of every channel whose samples the
+                sampler adds into this entry somewhere in [a,b), with the window as a mask."""
                 out = []
-                for (n2, _s2, c2, len2, _A, _D, PH2, p2, _st) in chinfo:
+                for (n2, _s2, c2, len2, A2, _D, PH2, p2, _st) in chinfo:
                     if c2.basis != ch.basis:
                         continue
                     g2 = c2.addressing == "Global" and not al and not isinstance(c2, DMM)
                     start2 = mask_end if (in_xy and g2) else 0
-                    ph2 = float(PH2[min(t, len2 - 1)]) if len2 else 0.0
+                    win = np.zeros(b - a, dtype=bool)
+                    ts = np.arange(a, b)
                     if g2:
-                        if entry_glob and t >= start2:
-                            out.append(ph2)
-                        elif not entry_glob and t < start2 and q not in mask_t:
-                            out.append(ph2)
+                        if entry_glob:
+                            win = ts >= start2
+                        elif q not in mask_t:
+                            win = ts < start2
                     elif not entry_glob:
                         for sl in samples.channel_samples[n2].slots:
                             lo2 = max(sl.ti, mask_end) if (in_xy and q in mask_t) else sl.ti
-                            if q in sl.targets and lo2 <= t < sl.tf:
-                                out.append(ph2)
+                            if q in sl.targets:
+                                win |= (ts >= lo2) & (ts < sl.tf)
+                    if not win.any():
+                        continue
+                    ext_a = np.concatenate([A2, np.zeros(max(0, T - len2))])[a:b]
+                    ext_p = np.concatenate([PH2, np.full(max(0, T - len2), PH2[-1] if len2 else 0.0)])[a:b]
+                    out.append((n2, np.where(win, ext_p, 0.0), np.where(win, ext_a, 0.0) != 0, win))
                 return out
+
             for i, s in pulses:
                 if is_dd(s.type) or isinstance(ch, DMM):
                     continue
@@ -661,17 +697,29 @@ def monitor_seq(real: RealSeq, user_pulses: set, rng, stats) -> list[Fail]:
                                               f"targeted by {name}[{i}]"))
                             continue
                         got = arr(entry["phase"])[a:b]
-                        okp = mod2pi_eq(got, ph)
+                        ws = writers(entry_glob, q, a, b)
+                        mine = arr(s.type.amplitude.samples)[a - s.ti:b - s.ti] != 0
+                        others_on = np.zeros(b - a, dtype=bool)
+                        for n2, _p2, on2, _w2 in ws:
+                            if n2 != name:
+                                others_on |= on2
+                        # the clause speaks where exactly one channel drives this entry
+                        single = mine & ~others_on
+                        stats["phase_ns_single_drive"] += int(single.sum())
+                        stats["phase_ns_simultaneous"] += int((mine & others_on).sum())
+                        okp = mod2pi_eq(got, ph) | ~single
                         if not np.all(okp):
-                            t = a + int(np.flatnonzero(~okp)[0])
-                            ws = writers(entry_glob, q, t)
-                            summed = len(ws) > 1 and bool(mod2pi_eq(np.array([got[t - a]]), float(sum(ws)))[0])
+                            k0 = int(np.flatnonzero(~okp)[0])
+                            t = a + k0
+                            at = [(n2, float(p2[k0])) for n2, p2, _o, w2 in ws if w2[k0]]
+                            summed = len(at) > 1 and bool(mod2pi_eq(np.array([got[k0]]), float(sum(p for _, p in at)))[0])
                             cause = "same-basis-channels-phase-sum" if summed else "other"
                             fails.append(Fail("monitor", "per-atom-phase",
                                               f"all_local={al}: the entry of atom {q} ({ch.basis}, "
-                                              f"{'Global' if entry_glob else 'Local'}) has phase {float(got[t - a])!r} at "
-                                              f"t={t} inside pulse {name}[{i}] whose phase is {ph!r}; {len(ws)} channels "
-                                              f"write this entry at that time, their phases are {ws}", cause=cause))
+                                              f"{'Global' if entry_glob else 'Local'}) has phase {float(got[k0])!r} at "
+                                              f"t={t} inside pulse {name}[{i}] (the only channel driving this entry at "
+                                              f"that time) whose phase is {ph!r}; channels written into the entry at "
+                                              f"that time and their phases: {at}", cause=cause))
                     if glob:
                         break  # one atom is enough for a Global entry
         stats["mon_nested"] += 1
@@ -1056,6 +1104,9 @@ def check(tier: str, seed: int) -> int:
             samples=samples_out,
             histograms={k: {str(a): b for a, b in sorted(v.items(), key=lambda kv: str(kv[0]))} for k, v in hist.items()},
             foreign_divergence=dict(hist["foreign"]), model_divergences=len(corr_divs),
+            nested_phase_rule_of_tree=phase_rule(),
+            per_atom_phase_ns_single_drive=stats["phase_ns_single_drive"],
+            per_atom_phase_ns_simultaneous_drives_not_judged=stats["phase_ns_simultaneous"],
             known_findings_hit=dict(known_hits), driver_lines=lines, repo_fingerprint=common.repo_fingerprint(),
         ),
         assumptions=TRUSTED_BASE, wall_s=timer.s(), violations=len(violations),
